@@ -36,6 +36,14 @@ def classes():
         x: Int32 = Int32()
         y: Int32 = Int32()
 
+    def _twin_class():
+        # a distinct class with the same name and the same layout (as after importing a definitions file twice)
+        class VT_INNER(MessageBase, metaclass=MessageMeta):
+            a: Int16 = Int16()
+            b: Double = Double()
+        return VT_INNER
+    VT_INNER_TWIN = _twin_class()
+
     class MDF_VT(pyrtma.MessageData, metaclass=MessageMeta):
         type_id = 31999
         type_name = "VT"
@@ -90,7 +98,7 @@ def classes():
         b4: ByteArray = ByteArray(4)
         u6: IntArray = IntArray(Uint8, 6)
 
-    _CLS.update(INNER=VT_INNER, OTHER=VT_OTHER, VT=MDF_VT, VT2=MDF_VT2)
+    _CLS.update(INNER=VT_INNER, OTHER=VT_OTHER, VT=MDF_VT, VT2=MDF_VT2, INNER_TWIN=VT_INNER_TWIN)
     return _CLS
 
 
@@ -360,6 +368,13 @@ def build_table():
     add("sa", "slice", slice(0, 2), [("inner", 5, 5.0)], REFUSE, None, "sa[0:2]=1xINNER")
     add("sa", "slice", slice(0, 2), [("inner", 5, 5.0), ("other",)], REFUSE, None, "sa[0:2]=[INNER, OTHER]")
     add("sa", "slice", slice(0, 2), [None, ("inner", 5, 5.0)], REFUSE, None, "sa[0:2]=[None, INNER]")
+    # a struct of another class that happens to have the same name and layout: refused like any wrong struct,
+    # wherever in the sequence it stands
+    add("sa", "slice", slice(0, 2), [("inner", 5, 5.0), ("inner_twin", 6, 6.0)], REFUSE, None, "sa[0:2]=[INNER, INNER']")
+    add("sa", "set", None, [("inner", 1, 1.0), ("inner", 2, 2.0), ("inner_twin", 3, 3.0)], REFUSE, None, "sa=[INNER, INNER, INNER']")
+    add("sa", "set", None, [("inner_twin", 1, 1.0), ("inner", 2, 2.0), ("inner", 3, 3.0)], REFUSE, None, "sa=[INNER', INNER, INNER]")
+    add("sa", "item", 1, ("inner_twin", 9, 9.5), REFUSE, None, "sa[1]=INNER'")
+    add("st", "set", None, ("inner_twin", 9, 9.5), REFUSE, None, "st=INNER'")
     # fields of a nested struct and of struct-array elements, reached through the accessors
     for path, label in ((("st",), "st"), (("sa", 0), "sa[0]"), (("sa", 2), "sa[2]"), (("sa", -1), "sa[-1]")):
         lo, hi = INTS["i16"]
@@ -424,6 +439,10 @@ def materialise(v):
         return x
     if isinstance(v, tuple) and v and v[0] == "other":
         return C["OTHER"]()
+    if isinstance(v, tuple) and v and v[0] == "inner_twin":
+        x = C["INNER_TWIN"]()
+        x.a, x.b = v[1], v[2]
+        return x
     if isinstance(v, tuple) and v and v[0] == "cls_inner":
         return C["INNER"]
     if isinstance(v, tuple) and v and v[0] == "carray":
@@ -455,10 +474,27 @@ def field_span(msg, field):
     return d.offset, d.offset + d.size
 
 
-def do_assign(msg, case: Case, in_force: bool, res: RunResult, who: str, accessor=None, prime=False, twin=False):
+def do_assign(msg, case: Case, in_force: bool, res: RunResult, who: str, accessor=None, prime=False, twin=False,
+              via_copy=0):
     """perform one table case on msg and judge it"""
     C = classes()
     value = materialise(case.value)
+    orig = orig_bytes = None
+    if via_copy and in_force and accessor is None:
+        # the assignment is made on a copy of the message (copy.copy / copy.deepcopy / pickle) taken after its
+        # fields had been looked at: the copy is a message of its own
+        import copy
+        import pickle
+        try:
+            for nm in ("st", "sa", "ia", "fa", "ba", "s"):
+                getattr(msg, nm)
+            _ = msg.sa[0]
+            dup = {1: copy.copy, 2: copy.deepcopy, 3: lambda m: pickle.loads(pickle.dumps(m))}[via_copy](msg)
+            if type(dup) is type(msg) and bytes(dup) == bytes(msg):
+                orig, orig_bytes, msg = msg, bytes(msg), dup
+                res.probes["assigned_on_a_copy"] += 1
+        except Exception:
+            pass
     twin_obj = twin_bytes = None
     if twin and in_force and accessor is None:
         # a second, independent message of the same type with exactly the same content, whose field was looked
@@ -513,6 +549,9 @@ def do_assign(msg, case: Case, in_force: bool, res: RunResult, who: str, accesso
         raised = e
     after = bytes(msg)
     lo, hi = field_span(msg, case.field)
+    if orig is not None and bytes(orig) != orig_bytes:
+        res.add("C09", "other_message_changed", f"{who}: {case.label} on a copy of the message changed the original",
+                sig=f"other_message_changed:copy:{case.field}")
     if twin_obj is not None and bytes(twin_obj) != twin_bytes:
         res.add("C09", "other_message_changed", f"{who}: {case.label} changed another message of the same type "
                                                 f"(equal content, its field had been read just before)",
@@ -654,7 +693,8 @@ class ValidationRun:
                     return
                 self.t(f"{who} depth={real_depth}: {case.label}")
                 do_assign(msg, case, in_force, res, who, prime=self.ch.flag("as.prime", 1, 4),
-                          twin=self.ch.flag("as.twin", 1, 4))
+                          twin=self.ch.flag("as.twin", 1, 4),
+                          via_copy=self.ch.weighted("as.copy", [(9, 0), (1, 1), (1, 2), (1, 3)]))
             elif op[0] == "grab":
                 # keep an array accessor obtained now (possibly inside a block) for later use
                 acc = getattr(self, "_acc_" + who, None)
@@ -765,7 +805,8 @@ class ValidationRun:
                 fill(msg, f["case"])
                 case = table()[f["case"]]
                 self.t(f"single assignment: {case.label}")
-                do_assign(msg, case, True, res, "main", prime=bool(f.get("prime")), twin=bool(f.get("twin")))
+                do_assign(msg, case, True, res, "main", prime=bool(f.get("prime")), twin=bool(f.get("twin")),
+                          via_copy=int(f.get("copy", 0)))
                 res.enumerated.setdefault("table_cases", set()).add(f["case"])
             else:
                 ntasks = 1 + ch.pick("cfg.ntasks", 3)
@@ -843,4 +884,7 @@ def det_cases(tier):
     out += [dict(case=i, prime=True) for i in (primed if tier == "thorough" else primed[::3])]
     # every case once more next to a twin message of equal content whose field was just read
     out += [dict(case=i, twin=True) for i in (range(n) if tier == "thorough" else range(1, n, 5))]
+    # ... and on a copy of the message (copy / deepcopy / pickle)
+    for how in (1, 2, 3):
+        out += [dict(case=i, copy=how) for i in (range(n) if tier == "thorough" else range(how, n, 9))]
     return out
